@@ -9,6 +9,7 @@ import (
 	"runtime/debug"
 	"strconv"
 	"strings"
+	"sync"
 	"time"
 )
 
@@ -227,8 +228,16 @@ func caseGoroutine(h Handler, req *Req) (rep *Rep) {
 // reads it after the fact (a stale read only mislabels a phase).
 var curPhase string
 
-// SetPhase records the current phase of the running case.
-func SetPhase(p string) { curPhase = p }
+// SetPhase records the current phase of the running case and tells the parent
+// (so that a hang whose sampler never reports can still be attributed to a phase).
+func SetPhase(p string) {
+	curPhase = p
+	if phaseSend != nil {
+		phaseSend(p)
+	}
+}
+
+var phaseSend func(p string)
 
 // WorkerTmp is a per-worker scratch directory (removed by the parent).
 var WorkerTmp string
@@ -251,10 +260,14 @@ func MaybeWorker() {
 	out := os.NewFile(3, "reply")
 	w := bufio.NewWriterSize(out, 1<<16)
 	enc := json.NewEncoder(w)
+	var sendMu sync.Mutex
 	send := func(r *Rep) {
+		sendMu.Lock()
 		enc.Encode(r)
 		w.Flush()
+		sendMu.Unlock()
 	}
+	phaseSend = func(p string) { send(&Rep{Kind: "phase", Phase: p}) }
 	dec := json.NewDecoder(bufio.NewReaderSize(os.Stdin, 1<<20))
 	for {
 		var rq Req
